@@ -76,6 +76,9 @@ class Logic:
         self.ivs = z3.Function("has_subscript", self.Node, self.Node, self.B)
         self.plain = z3.Function("plain_variable_like", self.Node, self.Node)
         self._var_axioms_added = False
+        # selection (transport) nodes: transport_variable(v) = Variable("T_" + v.name) is injective and yields a transport node
+        self.is_transport = z3.Function("is_transport_node", self.Node, self.B)
+        self.transport = z3.Function("transport_variable", self.Node, self.Node)
 
     def var_algebra(self):
         """Axioms of the Variable algebra (data invariants of y0.dsl.Variable / Intervention / CounterfactualVariable)."""
